@@ -6,7 +6,11 @@ jsonschema.validate(json.load(open('/verif/MANIFEST.json')),json.load(open('/roo
 sch=json.load(open('/root/.vp/EVIDENCE.schema.json'))
 for f in sorted(glob.glob('/verif/evidence/*.json')):
     try:
-        jsonschema.validate(json.load(open(f)),sch); print('ok',f)
+        d=json.load(open(f)); jsonschema.validate(d,sch)
+        cov=d.get('coverage',{})
+        if d.get('level') in ('exploration','fault_enumeration') or True:
+            assert cov.get('evaluations',0)>=1 and cov.get('distinct_nontrivial',0)>=2 and len(cov.get('samples',[]))>=1 and cov.get('rule'), 'coverage too thin: ev=%s distinct=%s samples=%s'%(cov.get('evaluations'),cov.get('distinct_nontrivial'),len(cov.get('samples',[])))
+        print('ok',f)
     except Exception as e: print('INVALID',f,str(e)[:300])
 print('manifest ok')
 PY
